@@ -411,6 +411,61 @@ theorem stepUnlock_coh (s : State) (h : Coh s.disk s.mem) :
     · exact foldl_coh s.disk _ (fun m p hm => loadAcct_coh s.disk m p.1 p.2 hm) _ _ h
     · exact h
 
+theorem stepUnlockPass_coh (s : State) (p : Nat) (h : Coh s.disk s.mem) :
+    Coh (stepUnlockPass s p).1.disk (stepUnlockPass s p).1.mem := by
+  unfold stepUnlockPass
+  split
+  · exact stepUnlock_coh s h
+  · exact h
+
+/-- a passphrase step touches neither the account rows / last account of the transaction's view nor the account cache -/
+theorem chStep_rows (t : Tx) (priv old new) :
+    (chStep t priv old new).1.d.rows = t.d.rows ∧ (chStep t priv old new).1.d.last = t.d.last ∧
+    (chStep t priv old new).1.m.accts = t.m.accts ∧ (chStep t priv old new).1.pend = t.pend := by
+  unfold chStep
+  split <;> split <;> exact ⟨rfl, rfl, rfl, rfl⟩
+
+theorem coh_congr {d d' : Disk} {m m' : Mem} (h : Coh d m) (h1 : d'.rows = d.rows) (h2 : d'.last = d.last)
+    (h3 : m'.accts = m.accts) : Coh d' m' := by
+  unfold Coh at *
+  rw [h1, h2, h3]; exact h
+
+theorem commit_nil (t : Tx) (hp : t.pend = []) : commit t = { disk := t.d, mem := t.m } := by
+  unfold commit; rw [hp]; rfl
+
+theorem stepChPass_coh (s : State) (priv old new) (h : Coh s.disk s.mem) :
+    Coh (stepChPass s priv old new).1.disk (stepChPass s priv old new).1.mem := by
+  have hr := chStep_rows (begin s) priv old new
+  cases hc : (chStep (begin s) priv old new).2 with
+  | some e => simp only [stepChPass, hc]; exact coh_congr h rfl rfl hr.2.2.1
+  | none =>
+    simp only [stepChPass, hc, commit_nil _ hr.2.2.2]
+    exact coh_congr h hr.1 hr.2.1 hr.2.2.1
+
+theorem stepChBothWith_coh (pf : Bool) (s : State) (po pn vo vn) (h : Coh s.disk s.mem) :
+    Coh (stepChBothWith pf s po pn vo vn).1.disk (stepChBothWith pf s po pn vo vn).1.mem := by
+  cases pf
+  · have ha := chStep_rows (begin s) false po pn
+    have hb := chStep_rows (chStep (begin s) false po pn).1 true vo vn
+    cases hc : (chStep (begin s) false po pn).2 with
+    | some e => simp [stepChBothWith, hc]; exact coh_congr h rfl rfl ha.2.2.1
+    | none =>
+      cases hc2 : (chStep (chStep (begin s) false po pn).1 true vo vn).2 with
+      | some e => simp [stepChBothWith, hc, hc2]; exact coh_congr h rfl rfl (hb.2.2.1.trans ha.2.2.1)
+      | none =>
+        simp [stepChBothWith, hc, hc2, commit_nil _ (hb.2.2.2.trans ha.2.2.2)]
+        exact coh_congr h (hb.1.trans ha.1) (hb.2.1.trans ha.2.1) (hb.2.2.1.trans ha.2.2.1)
+  · have ha := chStep_rows (begin s) true vo vn
+    have hb := chStep_rows (chStep (begin s) true vo vn).1 false po pn
+    cases hc : (chStep (begin s) true vo vn).2 with
+    | some e => simp [stepChBothWith, hc]; exact coh_congr h rfl rfl ha.2.2.1
+    | none =>
+      cases hc2 : (chStep (chStep (begin s) true vo vn).1 false po pn).2 with
+      | some e => simp [stepChBothWith, hc, hc2]; exact coh_congr h rfl rfl (hb.2.2.1.trans ha.2.2.1)
+      | none =>
+        simp [stepChBothWith, hc, hc2, commit_nil _ (hb.2.2.2.trans ha.2.2.2)]
+        exact coh_congr h (hb.1.trans ha.1) (hb.2.1.trans ha.2.1) (hb.2.2.1.trans ha.2.2.1)
+
 /-- every request preserves the coherence of the account cache - except the two eager mutators (ImportAccount,
 RenameAccount) when the COMMIT of their transaction fails (`Op.eagerCommitFail`) -/
 theorem step_coh (s : State) (op : Op) (hop : op.eagerCommitFail = false) (h : Coh s.disk s.mem) :
@@ -430,6 +485,10 @@ theorem step_coh (s : State) (op : Op) (hop : op.eagerCommitFail = false) (h : C
   | lock => exact h
   | unlock => exact stepUnlock_coh s h
   | cmp scs us => exact stepCmp_coh s scs us h
+  | unlockPass p => exact stepUnlockPass_coh s p h
+  | chPass priv old new => exact stepChPass_coh s priv old new h
+  | chBoth po pn vo vn => exact stepChBothWith_coh false s po pn vo vn h
+  | restart => exact ⟨fun _ _ _ hx => (by cases hx), h.bound⟩
 
 theorem init_coh : Coh init.disk init.mem := by
   refine ⟨?_, ?_⟩
